@@ -290,6 +290,8 @@ def gen_tables():
     # registry
     L.append('def protocolIds : List (String × Nat) := [' + ', '.join(f'({lean_str(m.name)}, {int(m)})' for m in registry.ProtocolsIDs) + ']')
     L.append('def registeredParsers : List (Nat × String) := [' + ', '.join(f'({int(k)}, {lean_str(v.__name__)})' for k, v in sorted(registry.PARSERS.items(), key=lambda kv: int(kv[0]))) + ']')
+    L.append('/-- `HeaderParser.name` of an instance of each registered parser class -/')
+    L.append('def parserNames : List (String × String) := [' + ', '.join(f'({lean_str(v.__name__)}, {lean_str(str(v().name))})' for k, v in sorted(registry.PARSERS.items(), key=lambda kv: int(kv[0]))) + ']')
     L.append('def stacks : List (String × List Nat) := [' + ', '.join(f'({lean_str(str(k.value))}, [{", ".join(str(int(x)) for x in v)}])' for k, v in registry.STACKS.items()) + ']')
     L.append('def protocols : List (String × Nat) := [' + ', '.join(f'({lean_str(k)}, {int(v)})' for k, v in registry.PROTOCOLS.items()) + ']')
     L.append('def ipv4NextProtocols : List Nat := [' + ', '.join(str(int(x)) for x in ipv4.IPV4_SUPPORTED_PAYLOAD_PROTOCOLS) + ']')
